@@ -86,7 +86,7 @@ Theorem C18_clone_verifies : forall Sc cl ba0 id0 id fl M kc n tix ws src base v
   balign_ok ba0 -> in_u32 id -> 0 <= fl < 65536 ->
   clone_root_script true Sc (mem_of_list src) base cl ba0 id0 id fl M kc tix ws = Some (sc, r, M') ->
   run init_state [] sc = Some (regs, ems, st) -> small st ->
-  Flatcc.Verifier.VerifierModel.schema_wf (Flatcc.Verifier.CompleteBase.to_vschema Sc) = true ->
+  Flatcc.Verifier.Schema.schema_wf (Flatcc.Verifier.CompleteBase.to_vschema Sc) = true ->
   Flatcc.Verifier.CompleteTable.schema_in_fragment Sc = true ->
   Flatcc.Verifier.CompleteTable.members_nonempty Sc = true ->
   Flatcc.Verifier.CompleteBytes.script_bytes sc = true ->
@@ -95,14 +95,14 @@ Theorem C18_clone_verifies : forall Sc cl ba0 id0 id fl M kc n tix ws src base v
   addr mod buffer_alignment st = 0 ->
   Flatcc.Verifier.VerifierModel.verify_root (of_list (buffer_bytes st)) addr (Flatcc.Verifier.CompleteBase.to_vschema Sc) fuel
     (Flatcc.Verifier.CompleteBase.to_vroot (RTable tix))
-    (Flatcc.Verifier.CompleteBase.to_variant (negb (Z.land fl 2 =? 0))) = Flatcc.Verifier.VerifierModel.VOk.
+    (Flatcc.Verifier.Complete.to_variant (negb (Z.land fl 2 =? 0))) = Flatcc.Verifier.VerifierModel.VOk.
 Proof. exact CloneVerify.clone_verifies. Qed.
 Print Assumptions C18_clone_verifies.
 
 (* C02_build_verifies for the extended typing (union vectors): used above, of independent interest *)
 Theorem C18_xbuild_verifies : forall Sc sc R v ws n N regs ems st addr fuel,
   xwt_script Sc sc R v ws n N -> run init_state [] sc = Some (regs, ems, st) -> small st ->
-  Flatcc.Verifier.VerifierModel.schema_wf (Flatcc.Verifier.CompleteBase.to_vschema Sc) = true ->
+  Flatcc.Verifier.Schema.schema_wf (Flatcc.Verifier.CompleteBase.to_vschema Sc) = true ->
   Flatcc.Verifier.CompleteTable.schema_in_fragment Sc = true ->
   Flatcc.Verifier.CompleteTable.members_nonempty Sc = true -> Flatcc.Verifier.Complete.root_ok R ->
   Flatcc.Verifier.CompleteBytes.script_bytes sc = true ->
@@ -110,7 +110,7 @@ Theorem C18_xbuild_verifies : forall Sc sc R v ws n N regs ems st addr fuel,
   Flatcc.Verifier.Complete.header_room R ws (lenZ (buffer_bytes st)) ->
   addr mod buffer_alignment st = 0 ->
   Flatcc.Verifier.VerifierModel.verify_root (of_list (buffer_bytes st)) addr (Flatcc.Verifier.CompleteBase.to_vschema Sc) fuel
-    (Flatcc.Verifier.CompleteBase.to_vroot R) (Flatcc.Verifier.CompleteBase.to_variant ws) = Flatcc.Verifier.VerifierModel.VOk.
+    (Flatcc.Verifier.CompleteBase.to_vroot R) (Flatcc.Verifier.Complete.to_variant ws) = Flatcc.Verifier.VerifierModel.VOk.
 Proof. exact CloneVerify.xbuild_verifies. Qed.
 Print Assumptions C18_xbuild_verifies.
 
